@@ -132,7 +132,7 @@ class Unit:
             self.map.append(o)
 
 
-STD_RULES = ["R7", "R20", "R27", "R29", "R30", "R31", "R35", "R37"]   # definitional unfoldings of std combinators, safe to apply anywhere
+STD_RULES = ["R7", "R20", "R27", "R29", "R30", "R31", "R35", "R37", "R38", "R39"]   # definitional unfoldings of std combinators, safe to apply anywhere
 
 
 def apply_rules(text, names, unit, where):
